@@ -135,10 +135,8 @@ namespace Givaro
         Element& init (Element& x, const Integer& a) const;
         template<typename T> Element& init(Element& r, const T& a) const
         {
-            // T is supposed to be fit into an Element
-            Caster<Element>(r, a < 0? -a : a) %= _p;
-            if (a < 0) negin(r);
-            return redc(r, r * _B2p);
+            // reduce in 64 bits: T need not fit into an Element (long long is not int64_t)
+            return init(r, Caster<int64_t>(a));
         }
 
         Element& assign(Element& x, const Element& y) const
